@@ -6,9 +6,11 @@ import (
 	"fmt"
 	"io"
 	"os"
+	"strings"
 	"time"
 
 	"verif/findings"
+	"verif/gqlref"
 )
 
 // Replay re-runs the single recorded case of a replay file in this process, without the
@@ -43,5 +45,42 @@ func Replay(p *Prop, tier, path string) int {
 		return 1
 	}
 	fmt.Println("the case passes")
+	return 0
+}
+
+// Probe runs one hand-written operation on a world (development aid: `acheck -probe
+// '<world>' '<query>' ['<variables json>']`) and prints reference, answer and sub-requests.
+func Probe(world, q, vars string, cfg Config) int {
+	parts := strings.Split(world, "+")
+	w, err := WorldDesc{Base: parts[0], Atoms: parts[1:]}.Build()
+	if err != nil {
+		fmt.Println("world:", err)
+		return 2
+	}
+	f, err := NewFed(w, cfg)
+	if err != nil {
+		fmt.Println("gateway:", err)
+		return 2
+	}
+	c := Case{Q: q}
+	if vars != "" {
+		json.Unmarshal([]byte(vars), &c.Vars)
+	}
+	o := f.Run(c)
+	if !o.Valid {
+		fmt.Println("invalid operation:", o.GenError)
+		return 2
+	}
+	rb, _ := json.Marshal(o.RefData)
+	fmt.Printf("reference: %s (err %q)\nanswer %d:  %s\n", rb, o.RefErr, o.Status, o.Body)
+	for _, r := range o.Reqs {
+		vb, _ := json.Marshal(r.Variables)
+		fmt.Printf("  -> s%d %s %s %s\n", r.Svc, strings.Join(strings.Fields(r.Query), " "), vb, r.Invalid)
+	}
+	if m, ok := o.Resp["data"]; ok {
+		pr, _ := gqlref.Prune(o.RefData)
+		pm, _ := gqlref.Prune(m)
+		fmt.Println("diff:", DiffSigs(pr, pm))
+	}
 	return 0
 }
